@@ -232,7 +232,8 @@ def run_build_fds(case):
     return out
 
 
-AFFIXES = ['\n', '\r', '\r\n', '\t', ' ', '\x00', '\x0b', '\u2028', '.', '/', ':', '-', 'é']
+AFFIXES = ['\n', '\r', '\r\n', '\t', ' ', '\x00', '\x0b', '\u2028', '.', '/', ':', '-', 'é',
+           '\u017f', '\u212a', '\u0130', '\u0131', '\uff21', '\u0663', '\u200b']      # non-ASCII look-alikes of ASCII name characters
 BASES = {'path': ['/o', '/a/b_c'], 'member': ['Ping', 'm_2'], 'interface': ['a.b', 'org.verif.If_1'],
          'destination': ['c.d', ':1.42'], 'error_name': ['a.b.E', 'org.verif.Error.X9']}
 
@@ -252,6 +253,10 @@ def enum_reject_affixed(tier):
                 for ch in AFFIXES:
                     for v in (base + ch, ch + base):
                         yield {'kind': 'name', 'msg': msg, 'arg': arg, 'value': v, 'valid': rec(v)}
+                        if t == 3:
+                            # the one constructor that also takes a sender: the other names are checked all the same
+                            with_sender = dict(msg, fields=dict(msg['fields'], sender=':1.7'))
+                            yield {'kind': 'name', 'msg': with_sender, 'arg': arg, 'value': v, 'valid': rec(v)}
 
 
 def run_reject(case):
